@@ -135,7 +135,17 @@ def gen_cases(rng, n_cases):
     while len(cases) < n_cases:
         r = rng.random()
         binary = rng.random() < 0.45
-        if r < 0.30:
+        if r < 0.01:
+            # binary suffix record whose name is not NUL-terminated inside namelen
+            s0 = solgen.rand_sol(rng, maxn=3)
+            s0.sufs = []
+            s0.objno = 0
+            nm = rng.choice([b'foo', b'ab', b'sstatus'])
+            tb = rng.choice([b't\0', b'tab\0', b'x' * 7 + b'\0'])
+            recb = b'\nSuffix\n' + struct.pack('<iiii', 0, 0, len(nm), len(tb)) + nm + tb
+            b = solgen.bin_bytes(s0) + solgen.rec(recb)
+            add('bin-name-unterminated', b, s0.nvars, s0.ncons, (0, 'all', 'all', 'all'), namelen=len(nm))
+        elif r < 0.30:
             # valid file, sizes as the reader needs them, read-all handler: full expected events known
             s = solgen.rand_sol(rng, maxn=rng.choice([3, 12, 40]))
             b = solgen.bin_bytes(s) if binary else solgen.text_bytes(s, rng.choice([b'\n', b'\n', b'\r\n']))
@@ -315,7 +325,7 @@ def run(ck):
     ck.log('probe: %s -> comparing against the %s model' % (pi[0][:60], 'patched (fx=1)' if FX[0] else 'as-is (fx=0)'))
     ck.cov['model_variant'] = 'patched' if FX[0] else 'as-is'
     rng = random.Random(ck.seed * 1000003 + 14)
-    n_cases = 2500 if ck.tier == 'quick' else 30000
+    n_cases = 2500 if ck.tier == "quick" else 20000
     cases = gen_cases(rng, n_cases)
     impl, model, exe, cf = run_streams(ck, cases, 'main')
 
